@@ -8,6 +8,7 @@ package props
 // select choices and predicts every result. The free-running -race pass complements it.
 
 import (
+	"context"
 	"fmt"
 	"os"
 	"os/exec"
@@ -291,6 +292,9 @@ func runC13(r *harness.Run) {
 	r.Assumptions = []string{"select against select on the same channel is not generated (the shadow model pairs a select only with plain operations)", "data races are judged by the separate free-running -race pass: happens-before detection on the executions that occurred, not an enumeration",
 		"Go's memory model below sequential consistency is not modelled"}
 	var states, transitions, execs, deadlocks int64
+	// the free-running pass runs first: when it reports a data race, nondeterminism seen later under
+	// a fixed schedule is a consequence of that race, not a harness defect
+	raceFound := c13RacePass(r)
 	outcomes := sync.Map{}
 	pools := make([]*c13Pool, harness.Workers())
 	for i := range pools {
@@ -337,6 +341,10 @@ func runC13(r *harness.Run) {
 				ex2, tr2 := c13Run(pool, sc, choices)
 				bad2 := c13Check(sc, ex2, tr2)
 				if bad2 == "" || fmt.Sprint(sortedTraces(tr2)) != fmt.Sprint(sortedTraces(tr)) {
+					if raceFound {
+						r.Violation("sched/nondeterministic-under-fixed-schedule", fmt.Sprintf("schedule %v of %s gives different observations when replayed (%q vs %q); the free-running pass reported a data race", choices, sc.name, bad, bad2), map[string]interface{}{"scenario": sc.name, "schedule": choices})
+						return false
+					}
 					harness.Fatal("C13: schedule %v of %s is not reproducible: %q vs %q", choices, sc.name, bad, bad2)
 				}
 				r.Violation("sched/"+sc.name+"/"+firstWords(bad, 3), fmt.Sprintf("%s\nscenario %s, schedule %v", bad, sc.name, choices), map[string]interface{}{"scenario": sc.name, "schedule": choices, "traces": tr})
@@ -350,7 +358,6 @@ func runC13(r *harness.Run) {
 	})
 	c13Interference(r, bound, &states, &transitions, &execs)
 	c13Payloads(r)
-	c13RacePass(r)
 	r.Extra["states"] = states
 	r.Extra["transitions"] = transitions
 	r.Extra["traces_validated_against_impl"] = execs
@@ -376,8 +383,20 @@ func sortedTraces(tr map[string][]string) []string {
 // ---- refused payloads -------------------------------------------------------------------------------------------
 
 func c13Payloads(r *harness.Run) {
+	c13PayloadsOn(r, false)
+	c13PayloadsOn(r, true)
+}
+
+func c13PayloadsOn(r *harness.Run, withContext bool) {
 	L := lua.NewState()
 	defer L.Close()
+	tag := ""
+	if withContext {
+		ctx, cancel := context.WithCancel(context.Background())
+		defer cancel()
+		L.SetContext(ctx)
+		tag = "/ctx"
+	}
 	ch := make(chan lua.LValue, 4)
 	L.SetGlobal("ch", lua.LChannel(ch))
 	L.SetGlobal("ud", L.NewUserData())
@@ -398,20 +417,20 @@ func c13Payloads(r *harness.Run) {
 				src = fmt.Sprintf(`return pcall(function() channel.select({"<-|", ch, %s}, {"default"}) end)`, c.expr)
 			}
 			if err := L.DoString(src); err != nil {
-				r.Violation("payload/"+c.name+"/"+via+"/chunk-error", err.Error(), map[string]interface{}{"source": src})
+				r.Violation("payload/"+c.name+"/"+via+tag+"/chunk-error", err.Error(), map[string]interface{}{"source": src})
 				continue
 			}
 			ok := L.Get(1) == lua.LTrue
 			L.SetTop(0)
 			after := len(ch)
-			r.Eval("payload/"+c.name+"/"+via, true, func() interface{} { return map[string]interface{}{"case": "payload", "value": c.expr, "via": via} })
+			r.Eval("payload/"+c.name+"/"+via+tag, true, func() interface{} { return map[string]interface{}{"case": "payload", "value": c.expr, "via": via} })
 			switch {
 			case ok != c.ok:
-				r.Violation("payload/"+c.name+"/"+via+"/accepted", fmt.Sprintf("payload %s through %s: accepted=%v, expected accepted=%v", c.expr, via, ok, c.ok), map[string]interface{}{"source": src})
+				r.Violation("payload/"+c.name+"/"+via+tag+"/accepted", fmt.Sprintf("payload %s through %s: accepted=%v, expected accepted=%v", c.expr, via, ok, c.ok), map[string]interface{}{"source": src})
 			case !c.ok && after != before:
-				r.Violation("payload/"+c.name+"/"+via+"/touched", fmt.Sprintf("refused payload %s changed the channel (%d -> %d values)", c.expr, before, after), map[string]interface{}{"source": src})
+				r.Violation("payload/"+c.name+"/"+via+tag+"/touched", fmt.Sprintf("refused payload %s changed the channel (%d -> %d values)", c.expr, before, after), map[string]interface{}{"source": src})
 			case c.ok && after != before+1:
-				r.Violation("payload/"+c.name+"/"+via+"/lost", fmt.Sprintf("accepted payload %s not delivered to the channel", c.expr), map[string]interface{}{"source": src})
+				r.Violation("payload/"+c.name+"/"+via+tag+"/lost", fmt.Sprintf("accepted payload %s not delivered to the channel", c.expr), map[string]interface{}{"source": src})
 			}
 			for len(ch) > 0 {
 				<-ch
@@ -568,7 +587,7 @@ func c13Interference(r *harness.Run, bound int, states, transitions, execs *int6
 
 // ---- free-running race pass -----------------------------------------------------------------------------------
 
-func c13RacePass(r *harness.Run) {
+func c13RacePass(r *harness.Run) (raceFound bool) {
 	bin := filepath.Join(harness.Root, "bin", "racepass")
 	if d := os.Getenv("VERIF_BIN"); d != "" {
 		bin = filepath.Join(d, "racepass")
@@ -594,6 +613,8 @@ func c13RacePass(r *harness.Run) {
 			class = "mismatch-or-crash"
 		}
 		r.Violation("racepass/"+class, "the free-running pass under the race detector failed:\n"+text, map[string]interface{}{"output": text})
+		raceFound = true
 	}
 	r.Extra["racepass_rounds"] = rounds
+	return raceFound
 }
